@@ -79,57 +79,105 @@ func svcbDecode(wire []byte) ([]svcbDec, string) {
 	return out, ""
 }
 
+// svcbEmit: ToWire / ToText / reparse / independent decoder for an already parsed list
+func svcbEmit(out map[string]interface{}, pl *svcb.ParamList) {
+	var w bytes.Buffer
+	if err := pl.ToWire(&w); err != nil {
+		out["err"] = "towire: " + err.Error()
+	}
+	out["wire"] = ints(w.Bytes())
+	var t bytes.Buffer
+	pl.ToText(&t)
+	out["retext"] = t.String()
+	var pl2 svcb.ParamList
+	if err := pl2.FromText(t.Bytes()); err != nil {
+		out["reerr"] = err.Error()
+	} else {
+		var w2 bytes.Buffer
+		pl2.ToWire(&w2)
+		out["rewire"] = ints(w2.Bytes())
+	}
+	dec, derr := svcbDecode(w.Bytes())
+	out["decoded"] = dec
+	out["decerr"] = derr
+}
+
 func svcbMain(args []string) {
 	fs := flag.NewFlagSet("svcb", flag.ExitOnError)
 	in := fs.String("in", "", "input ndjson")
 	outp := fs.String("out", "trace.ndjson", "output ndjson")
+	deferred := fs.Int("deferred", 0, "also run every case a second time in chunks of this size: parse the whole chunk first, emit afterwards")
 	fs.Parse(args)
 	wr := hx.NewWriter(*outp)
 	defer wr.Close()
 	n := 0
+	var cases []svcbIn
 	hx.ReadLines(*in, func(line []byte) {
 		var e svcbIn
 		if err := json.Unmarshal(line, &e); err != nil {
 			hx.Die("bad input line: %v", err)
 		}
-		n++
-		out := map[string]interface{}{"ev": "svcb", "ids": e.IDs, "text": e.Text, "accepted": false, "err": "", "wire": []int{}, "rewire": []int{}, "reerr": "",
+		cases = append(cases, e)
+	})
+	blank := func(e svcbIn, mode string) map[string]interface{} {
+		return map[string]interface{}{"ev": "svcb", "mode": mode, "ids": e.IDs, "text": e.Text, "accepted": false, "err": "", "wire": []int{}, "rewire": []int{}, "reerr": "",
 			"retext": "", "decoded": []svcbDec{}, "decerr": ""}
-		func() {
-			defer func() {
-				if p := recover(); p != nil {
-					out["err"] = fmt.Sprintf("panic: %v", p)
-					out["accepted"] = true // a panic is not a rejection: let the judge see a broken acceptance
-					out["reerr"] = fmt.Sprintf("panic: %v", p)
-				}
-			}()
+	}
+	guard := func(out map[string]interface{}, f func()) {
+		defer func() {
+			if p := recover(); p != nil {
+				out["err"] = fmt.Sprintf("panic: %v", p)
+				out["accepted"] = true // a panic is not a rejection: let the judge see a broken acceptance
+				out["reerr"] = fmt.Sprintf("panic: %v", p)
+			}
+		}()
+		f()
+	}
+	for _, e := range cases {
+		e := e
+		n++
+		out := blank(e, "immediate")
+		guard(out, func() {
 			var pl svcb.ParamList
 			if err := pl.FromText([]byte(e.Text)); err != nil {
 				out["err"] = err.Error()
 				return
 			}
 			out["accepted"] = true
-			var w bytes.Buffer
-			if err := pl.ToWire(&w); err != nil {
-				out["err"] = "towire: " + err.Error()
-			}
-			out["wire"] = ints(w.Bytes())
-			var t bytes.Buffer
-			pl.ToText(&t)
-			out["retext"] = t.String()
-			var pl2 svcb.ParamList
-			if err := pl2.FromText(t.Bytes()); err != nil {
-				out["reerr"] = err.Error()
-			} else {
-				var w2 bytes.Buffer
-				pl2.ToWire(&w2)
-				out["rewire"] = ints(w2.Bytes())
-			}
-			dec, derr := svcbDecode(w.Bytes())
-			out["decoded"] = dec
-			out["decerr"] = derr
-		}()
+			svcbEmit(out, &pl)
+		})
 		wr.Put(out)
-	})
+	}
+	// the order of a decode-everything-then-marshal pipeline: a list must still hold its own values when it is
+	// emitted after other lists were compiled
+	for i := 0; *deferred > 0 && i < len(cases); i += *deferred {
+		j := i + *deferred
+		if j > len(cases) {
+			j = len(cases)
+		}
+		pls := make([]*svcb.ParamList, j-i)
+		outs := make([]map[string]interface{}, j-i)
+		for k, e := range cases[i:j] {
+			outs[k] = blank(e, "deferred")
+			k, e := k, e
+			guard(outs[k], func() {
+				pl := new(svcb.ParamList)
+				if err := pl.FromText([]byte(e.Text)); err != nil {
+					outs[k]["err"] = err.Error()
+					return
+				}
+				outs[k]["accepted"] = true
+				pls[k] = pl
+			})
+		}
+		for k := range pls {
+			if pls[k] != nil {
+				k := k
+				guard(outs[k], func() { svcbEmit(outs[k], pls[k]) })
+			}
+			wr.Put(outs[k])
+			n++
+		}
+	}
 	fmt.Printf("{\"cases\":%d}\n", n)
 }
